@@ -204,14 +204,43 @@ fn part_a_slice(block: usize, lists: &[Vec<Range<u64>>], tag: &str, cov: &mut Co
                         decided = true;
                     }
                 }
+                // overlap first: an empty range can merely widen the coalesced read (and so trigger a
+                // split) without being the cause; drop every non-empty range that overlaps an earlier one
+                let overlaps = |v: &[Range<u64>]| {
+                    let mut end = 0u64;
+                    let mut any = false;
+                    for x in v.iter().filter(|x| x.start != x.end) {
+                        if x.start < end {
+                            any = true;
+                        }
+                        end = end.max(x.end);
+                    }
+                    any
+                };
+                if !decided && overlaps(&cur) {
+                    let mut end = 0u64;
+                    let mut cand = vec![];
+                    for x in &cur {
+                        if x.start != x.end && x.start < end {
+                            continue;
+                        }
+                        end = end.max(x.end);
+                        cand.push(x.clone());
+                    }
+                    if passes(&mut r, block, path, &cand, &file).await {
+                        cause = "overlapping-range-after-a-split-range";
+                        decided = true;
+                    }
+                }
                 if !decided && cur.iter().any(|x| x.start == x.end) {
-                    cur.retain(|x| x.start != x.end);
-                    if passes(&mut r, block, path, &cur, &file).await {
+                    let mut cand = cur.clone();
+                    cand.retain(|x| x.start != x.end);
+                    if passes(&mut r, block, path, &cand, &file).await {
                         cause = "empty-range-gets-no-buffer";
                         decided = true;
                     }
                 }
-                if !decided && cur.windows(2).any(|w| w[1].start < w[0].end) {
+                if !decided && overlaps(&cur) {
                     cause = "overlapping-range-after-a-split-range";
                 }
                 viol.push(Violation::new(
